@@ -374,7 +374,7 @@ def run_property(prop, tier, seed, only=None, jobs=0, write_evidence=True):
         hs = [h for h in hs if only in h["name"]]
     rnd = random.Random(seed)
     rnd.shuffle(hs)  # the seed only permutes scheduling; verdicts do not depend on it
-    tier_timeout = 600 if tier == "quick" else 3600
+    tier_timeout = 1200 if tier == "quick" else 3600
     mem_gb = float(os.environ.get("VERIF_MEM_GB", "14"))
     jobs = jobs or int(os.environ.get("VERIF_JOBS", "0")) or (8 if tier == "quick" else 6)
     known = load_known()
@@ -456,6 +456,8 @@ def write_ev(prop, P, tier, seed, results, build_s, violations, known_hits, inco
     obligations = sum(r["checks"] for _, r in results)
     ok_checks = sum(r["checks"] - r["failed"] for _, r in results if r["status"] in ("success", "failed"))
     nontrivial = [(h, r) for h, r in discharged if r["checks"] > 0 and (r["covers"] == 0 or r["covers_sat"] == r["covers"])]
+    # a query whose only failures are listed known findings was decided by the solver(s) as well
+    nontrivial += [(h, r) for h, r in results if r["status"] == "failed" and r.get("handled") and all(o["kind"] == "known" for o in r["handled"])]
     samples = []
     for h, r in results:
         samples.append({
@@ -474,9 +476,9 @@ def write_ev(prop, P, tier, seed, results, build_s, violations, known_hits, inco
             "evaluations": max(len(results), 0),
             "distinct_nontrivial": len(nontrivial),
             "rule": "one evaluation = one solver query (a Kani proof harness compiled from /repo's working tree and decided by "
-                    "CBMC+CaDiCaL, or one z3 query); it counts as distinct and non-trivial when it has a different harness body, "
+                    "CBMC+CaDiCaL, or one generated SMT problem decided by z3 and cvc5); it counts as distinct and non-trivial when it has a different harness body, "
                     "ended SUCCESSFUL with unwinding assertions passed, contains >0 checked properties and every kani::cover! "
-                    "reachability witness in it was SATISFIED (non-vacuous)",
+                    "reachability witness in it was SATISFIED (non-vacuous); a query whose counterexample is a listed known finding counts as decided",
             "samples": samples,
             "obligations": obligations,
             "discharged": ok_checks,
